@@ -51,8 +51,15 @@ def run(ctx, rep):
 
     # the id handed to the partition append is one of the three, nothing else (no fourth source, no short cut in front of the dispatch)
     import forms as forms_
-    forms_.check_call_args(ctx, rep, 'R17.a', {T + '::append_messages': {'AppendableBatchInfo::new': [
-        'batch_size, phi{Topic::calculate_partition_id_by_messages_key_hash(self, partitioning.value) | Topic::get_next_partition_id(self) | u32::from_le_bytes(::index(partitioning.value, RangeTo::RangeTo{end: partitioning.length}))}']}}, skip_self=False, cd=2)
+    ID_FORM = 'phi{Topic::calculate_partition_id_by_messages_key_hash(self, partitioning.value) | Topic::get_next_partition_id(self) | u32::from_le_bytes(::index(partitioning.value, RangeTo::RangeTo{end: partitioning.length}))}'
+    ABI = 'server::streaming::batching::appendable_batch_info::AppendableBatchInfo'
+    lit = [a for a, _ in forms_.aggregate_forms(ctx, T + '::append_messages', ABI)]
+    if lit and not forms_.call_arg_forms(ctx, T + '::append_messages', 'AppendableBatchInfo::new', skip_self=False, cd=2):
+        # the same value built with a struct literal instead of the constructor (which stores its parameters in the fields of their names)
+        okl = forms_._match(lit[0].get('partition_id', ''), [ID_FORM]) is not None
+        rep.ob('R17.a', T + '::append_messages', 'AppendableBatchInfo{partition_id}', okl, None, None if okl else 'the partition id handed to the append is `%s` (confirmed: `%s`)' % (lit[0].get('partition_id'), ID_FORM))
+    else:
+        forms_.check_call_args(ctx, rep, 'R17.a', {T + '::append_messages': {'AppendableBatchInfo::new': ['batch_size, ' + ID_FORM]}}, skip_self=False, cd=2)
 
     rep.rule('R17.b', 'the key hash lands in [1, n]: (hash32(key) mod n) with 0 mapped to n; depends only on key and n; modulo guarded by has_partitions', floor=4, analysis='A10 range')
     H = T + '::calculate_partition_id_by_messages_key_hash'
